@@ -266,7 +266,8 @@ def judge_design(case, im, mo):
     byname = {q["name"]: q for q in im["package"]}
     for b, q in ((b, byname[b["name"]]) for b in mo["ok"]):
         a = q["module"]
-        if a["signals"] != b["signals"] or [(p["n"], p["dir"]) for p in a["ports"]] != [(p["n"], p["dir"]) for p in b["ports"]]:
+        if sorted((sg["n"], sg["w"]) for sg in a["signals"]) != sorted((sg["n"], sg["w"]) for sg in b["signals"]) or \
+                [(p["n"], p["dir"]) for p in a["ports"]] != [(p["n"], p["dir"]) for p in b["ports"]]:
             yield ("corr", f"module {q['name']}: signal / port lists {a['signals']} {a['ports']} vs model {b['signals']} {b['ports']}")
         if sorted(i["n"] for i in a["instances"]) != sorted(i["n"] for i in b["instances"]):
             yield ("pred", {"why": f"module {q['name']} does not have the designer's instances"})
@@ -303,8 +304,9 @@ def judge(case, im, mo):
         yield ("pred", {"why": f"a module the composed pass list refuses ({mo['error']}, planted fault: {case['fault']}) was exported"}, None)
         return
     a, b = im["module"], mo["ok"]
-    if a["signals"] != b["signals"]:
-        yield ("corr", f"signal list: {a['signals']} vs model {b['signals']}")
+    key = lambda sg: (sg["n"], sg["w"])
+    if sorted(map(key, a["signals"])) != sorted(map(key, b["signals"])):
+        yield ("corr", f"signals declared: {a['signals']} vs model {b['signals']}")
     if [(p["n"], p["dir"]) for p in a["ports"]] != [(p["n"], p["dir"]) for p in b["ports"]]:
         yield ("corr", f"port list: {a['ports']} vs model {b['ports']}")
     # (which instance stands where in the module is no business of the property: instances are matched by name — an exporter or an
